@@ -460,6 +460,42 @@ def rule_s4(ctx, F):
         ], accept_desc="returning a field")
 
 
+# readers of the alias a parent's production gives the child in structural slot `entry.structural_child_index`:
+# (function, how the entry is known not to be an extra)
+ALIAS_AT_READERS = {
+    "ts_tree_cursor_is_entry_visible": [("ts_subtree_extra(*entry->subtree)", False)],
+    "ts_tree_cursor_current_node": [("is_extra", False), ("ts_subtree_extra(*last_entry->subtree)", False)],
+    "ts_tree_cursor_parent_node": [("ts_subtree_extra(*entry->subtree)", False)],
+}
+ALIAS_AT_TABLED = {
+    "iterator_tree_is_visible": "changed-range walk: both trees are walked with the same predicate, an extra taken for an aliased node only adds a level of descent (granularity, not coverage)",
+    "iterator_get_visible_state": "changed-range walk: same predicate on both trees (see iterator_tree_is_visible)",
+    "ts_query__perform_analysis": "static analysis of the grammar's productions: child_index ranges over structural slots of a production, no tree node (and no extra) is involved",
+}
+
+
+def rule_s9(ctx, F):
+    """S9: an extra never wears an alias.  Extras occupy no structural slot: the structural_child_index stored with an
+    extra entry is the slot of the *next* structural child.  So a cursor operation may look up
+    ts_language_alias_at(parent production, entry.structural_child_index) only for an entry that is not an extra —
+    otherwise a hidden extra (e.g. a hidden pragma rule with visible children) is taken for the aliased sibling that follows it."""
+    n = 0
+    for fn in F.fn_list:
+        if not fn.file.startswith("lib/src") or not fn.blocks:
+            continue
+        reads = [pt for pt, c in fn.calls() if callee_name(c) == "ts_language_alias_at"]
+        if not reads:
+            continue
+        n += len(reads)
+        if fn.name in ALIAS_AT_TABLED:
+            ctx.ok("S9", "%s:alias-at" % fn.name, "tabled: " + ALIAS_AT_TABLED[fn.name], nontrivial=False)
+        elif fn.name in ALIAS_AT_READERS:
+            ctx.gate("S9", fn, reads, [("the alias is looked up only for an entry that is not an extra", ALIAS_AT_READERS[fn.name])], accept_desc="looking up the entry's alias")
+        else:
+            ctx.bad("S9", "%s:alias-at:untabled" % fn.name, "%s calls ts_language_alias_at but is not in the table of alias readers (is its entry known not to be an extra?)" % fn.name, {"site": fn.loc(reads[0])})
+    ctx.floor("calls of ts_language_alias_at", n, 6)
+
+
 def rule_s8(ctx, F):
     """S8: a field lookup answers only from map entries of the requested field.  The entries of a production are
     sorted by field id; ts_node_child_by_field_id narrows [field_map, field_map_end) from both sides and then
@@ -530,6 +566,7 @@ def run(ctx):
         rule_s6(ctx, F)
         rule_s7(ctx, F)
         rule_s8(ctx, F)
+        rule_s9(ctx, F)
         rule_v1(ctx, F)
     return ctx.finish(
         "Sibling-agreement (CFG isomorphism under substitution), field-coverage and index-width rules over node.c / tree_cursor.c: byte- and point-range "
